@@ -35,6 +35,41 @@ pub struct Env {
     pub server: tokio::task::JoinHandle<()>,
     pub streams: HashMap<u32, StreamState>,
     pub base: Instant,
+    pub base_us: u64,
+}
+
+pub fn now_us() -> u64 {
+    Instant::now().duration_since(deltio::verif::epoch()).as_micros() as u64
+}
+
+/// Moves the paused clock to `target` (µs since the epoch). Timers are only ever crossed while
+/// the clock is on a whole millisecond, so each one fires exactly at its own 1 ms tick.
+pub async fn goto(target: u64) {
+    let cur = now_us();
+    if target <= cur {
+        settle().await;
+        return;
+    }
+    let ceil = (cur + 999) / 1000 * 1000;
+    if target < ceil {
+        tokio::time::advance(Duration::from_micros(target - cur)).await;
+        settle().await;
+        return;
+    }
+    if ceil > cur {
+        tokio::time::advance(Duration::from_micros(ceil - cur)).await;
+        settle().await;
+    }
+    let floor_ms = target / 1000 * 1000;
+    if floor_ms > ceil {
+        tokio::time::sleep_until(deltio::verif::epoch() + Duration::from_micros(floor_ms)).await;
+        settle().await;
+    }
+    let cur2 = now_us();
+    if target > cur2 {
+        tokio::time::advance(Duration::from_micros(target - cur2)).await;
+    }
+    settle().await;
 }
 
 pub async fn settle() {
@@ -88,6 +123,7 @@ impl Env {
             server,
             streams: HashMap::new(),
             base: Instant::now(),
+            base_us: now_us(),
         }
     }
 
@@ -303,19 +339,7 @@ pub async fn step(env: &mut Env, line: &str) -> Answer {
     match toks[0] {
         "adv" => {
             let d: u64 = toks[1].parse().unwrap();
-            let now = Instant::now();
-            let cur = now.duration_since(deltio::verif::epoch()).as_micros() as u64;
-            let target = cur + d;
-            let floor_ms = target / 1000 * 1000;
-            if floor_ms > cur {
-                tokio::time::sleep_until(deltio::verif::epoch() + Duration::from_micros(floor_ms)).await;
-                settle().await;
-            }
-            let cur2 = Instant::now().duration_since(deltio::verif::epoch()).as_micros() as u64;
-            if target > cur2 {
-                tokio::time::advance(Duration::from_micros(target - cur2)).await;
-            }
-            settle().await;
+            goto(now_us() + d).await;
             ans("ok".into())
         }
         "clock" => {
@@ -569,7 +593,8 @@ pub async fn step(env: &mut Env, line: &str) -> Answer {
                     });
                     if r.is_ok() { "ok" } else { "closed" }
                 }
-                _ => "nostream",
+                Some(_) => "closed",
+                None => "nostream",
             };
             settle().await;
             ans(res.into())
@@ -709,12 +734,10 @@ pub async fn run(input: &str) -> Vec<(String, String)> {
             }
             // Align the clock to the next whole second so that every case starts at phase 0
             // of the 100 ms rounding grid and of the 1 ms timer grid.
-            let cur = Instant::now().duration_since(deltio::verif::epoch()).as_micros() as u64;
-            let next = (cur / 1_000_000 + 1) * 1_000_000;
-            tokio::time::sleep_until(deltio::verif::epoch() + Duration::from_micros(next)).await;
-            let cur2 = Instant::now().duration_since(deltio::verif::epoch()).as_micros() as u64;
-            if cur2 != next {
-                out.push((format!("CLOCK-MISALIGNED {} {}", cur2, next), String::new()));
+            let next = (now_us() / 1_000_000 + 1) * 1_000_000;
+            goto(next).await;
+            if now_us() != next {
+                out.push((format!("CLOCK-MISALIGNED {} {}", now_us(), next), String::new()));
                 env = Some(Env::new().await);
                 continue;
             }
@@ -727,10 +750,11 @@ pub async fn run(input: &str) -> Vec<(String, String)> {
             None => out.push(("no-env".into(), String::new())),
             Some(e) => {
                 let a = step(e, line).await;
+                let side = format!("{} {}", now_us() - e.base_us, a.side);
                 if PANICKED.swap(false, Ordering::SeqCst) {
-                    out.push((format!("PANIC {}", a.main), a.side));
+                    out.push((format!("PANIC {}", a.main), side));
                 } else {
-                    out.push((a.main, a.side));
+                    out.push((a.main, side));
                 }
             }
         }
